@@ -29,7 +29,7 @@ SRC = "mesa/model.py"
 
 HEADER = """Inductive rng_kind := KSelfRandom | KModelRandom | KPassThrough | KFirstAgentOrNone | KNoParam | KOmitted | KOther.
 Inductive rng_site := SModelInit | SRegisterAgent | SCreateAgents | SSelect | SShuffle | SSort | SGroupBy | SGroupByCtor
-  | SSpaceAgents | SAllCells | SCellSelect | SCellNbhd | SLegacyAgents | SSpaceCtor | SExample | SOtherSite."""
+  | SSpaceAgents | SAllCells | SCellSelect | SCellNbhd | SLegacyAgents | SExpSpaceAgents | SSpaceCtor | SExample | SOtherSite."""
 
 # (file, class, function) -> site of the model
 SITES = {
@@ -47,6 +47,7 @@ SITES = {
     ("mesa/space.py", "_Grid", "agents"): "SLegacyAgents",
     ("mesa/space.py", "ContinuousSpace", "agents"): "SLegacyAgents",
     ("mesa/space.py", "NetworkGrid", "agents"): "SLegacyAgents",
+    ("mesa/experimental/continuous_space/continuous_space.py", "ContinuousSpace", "agents"): "SExpSpaceAgents",
 }
 ROOTS = {("mesa/agent.py", "AgentSet"), ("mesa/discrete_space/cell_collection.py", "CellCollection"),
          ("mesa/discrete_space/cell.py", "Cell"), ("mesa/discrete_space/discrete_space.py", "DiscreteSpace"),
@@ -396,8 +397,28 @@ def c_reset_rng():
             f"  : option {RTYPE} :=\n  {INIT}{body}).")
 
 
+def c_agent_props():
+    """Agent.random / Agent.rng are PROPERTIES that read the model's generators at every access (so a re-bound model.rng
+    - reset_rng makes a new Generator by design - is what every agent sees): bodies must be exactly these returns"""
+    cls = T._find_class(T._parse("mesa/agent.py"), "Agent")
+    got = {}
+    for name, want in (("random", "return self.model.random"), ("rng", "return self.model.rng")):
+        fn = T._find_func(cls, name)
+        if not any(ast.unparse(d) == "property" for d in fn.decorator_list):
+            raise T.Broken(f"Agent.{name} is not a property")
+        body = [st for st in fn.body if not (isinstance(st, ast.Expr) and isinstance(st.value, ast.Constant))]
+        got[name] = len(body) == 1 and ast.unparse(body[0]) == want
+    for st in ast.walk(T._find_func(cls, "__init__")):
+        if isinstance(st, (ast.Assign, ast.AnnAssign)) and ast.unparse(st.targets[0] if isinstance(st, ast.Assign) else st.target) in ("self.random", "self.rng"):
+            raise T.Broken("Agent.__init__ caches a generator")
+    return ("Definition gen_agent_random_is_models : bool := " + ("true" if got["random"] else "false") + ".\n"
+            "Definition gen_agent_rng_is_models : bool := " + ("true" if got["rng"] else "false") + ".")
+
+
 _FB = f"None"
 CONSTRUCTS = [
+    ("agent_generator_props", "mesa/agent.py", c_agent_props,
+     lambda: "Definition gen_agent_random_is_models : bool := false.\nDefinition gen_agent_rng_is_models : bool := false."),
     ("rng_sites", "mesa/**/*.py", c_rng_sites,
      lambda: "Definition gen_rng_sites : list ((Z * Z) * (rng_site * rng_kind)) := [((-1, -1), (SOtherSite, KOther))]."),
     ("model_init_code", SRC, c_model_init,
